@@ -29,6 +29,9 @@ def build_harness(tags="verif", race=False):
         return _built[key]
     out = os.path.join(scratch(), "vharness" + ("-race" if race else ""))
     cmd = ["go", "build", "-tags", tags, "-o", out]
+    if os.environ.get("VERIF_COVER"):
+        # coverage survey (lib/coverage.sh): which statements of the implementation the checks execute at all
+        cmd[2:2] = ["-cover", "-coverpkg=github.com/jmeaster30/vore/..."]
     env = dict(GOENV)
     if race:
         cmd.insert(2, "-race")
@@ -52,7 +55,8 @@ def build_cli():
         return out
     env = dict(os.environ, GOFLAGS="", GOPROXY="off", GOSUMDB="off", GOTOOLCHAIN="local")
     env.pop("GOWORK", None)
-    p = subprocess.run(["go", "build", "-o", out, "."], cwd="/repo", env=env, capture_output=True, text=True)
+    p = subprocess.run(["go", "build"] + (["-cover", "-coverpkg=github.com/jmeaster30/vore/..."] if os.environ.get("VERIF_COVER") else []) + ["-o", out, "."],
+                       cwd="/repo", env=env, capture_output=True, text=True)
     if p.returncode != 0:
         raise BuildError(p.stdout + p.stderr)
     return out
